@@ -238,7 +238,22 @@ End C26.
 
 (** * The SHA-256 instance and the regenerated constants *)
 
-(** hasher: prefixes and the empty hash are what the source has now *)
+(** hasher: prefixes and the empty hash are what the source has now.  Every conjunct is a closed
+    computation, so a changed source makes this fail at once (no conversion on open SHA-256 terms). *)
+Lemma hasher_consts :
+  gen_leaf_prefix = 0%N /\ gen_node_prefix = 1%N /\ gen_uint256_size = 32 /\
+  sha_hash_empty = gen_hash_empty /\
+  sha_hash_children sha_zero sha_zero = gen_hash_children_zero /\
+  sha_hash_leaf [97; 98; 99]%N = gen_hash_leaf_abc.
+Proof.
+  split; [vm_compute; reflexivity|].
+  split; [vm_compute; reflexivity|].
+  split; [vm_compute; reflexivity|].
+  split; [vm_compute; reflexivity|].
+  split; [vm_compute; reflexivity|].
+  vm_compute; reflexivity.
+Qed.
+
 Lemma hasher_tied :
   (forall d, sha_hash_leaf d = sha256 (gen_leaf_prefix :: d)) /\
   (forall l r, sha_hash_children l r = sha256 (gen_node_prefix :: l ++ r)) /\
@@ -247,8 +262,11 @@ Lemma hasher_tied :
   sha_hash_leaf [97; 98; 99]%N = gen_hash_leaf_abc /\
   gen_leaf_prefix <> gen_node_prefix /\ gen_uint256_size = 32.
 Proof.
-  repeat split; try (intros; reflexivity); try (vm_compute; reflexivity).
-  vm_compute. discriminate.
+  destruct hasher_consts as (E1 & E2 & E3 & E4 & E5 & E6).
+  rewrite E1, E2.
+  split; [intro d; unfold sha_hash_leaf; exact eq_refl|].
+  split; [intros l r; unfold sha_hash_children; exact eq_refl|].
+  repeat split; try assumption. discriminate.
 Qed.
 
 (** store positions: the model's getSubTreePos / getStoredHashNum equal the code's, for every
